@@ -14,10 +14,22 @@ Run(ms, i, inside) ==
   IF i > Len(ms) THEN (IF inside THEN "stream ends inside a frame (end marker lost)" ELSE "ok")
   ELSE IF ms[i] = 1 THEN (IF inside THEN "frame begins inside a frame (end marker lost)" ELSE Run(ms, i + 1, TRUE))
   ELSE (IF inside THEN Run(ms, i + 1, FALSE) ELSE "frame ends without having begun (begin marker lost)")
+\* C01 on the wire (image sessions): kitty graphics commands as the terminal received them, <<action, image, placement>>
+\* with action 1 = put, 2 = delete (placement 0 = every placement of the image).  The image is shown and delivered, stays
+\* unchanged while the frames pile up, and is gone from the first frame after the drop on: when the session ends the
+\* terminal must hold no placement (the forced clear's erase commands are part of what must survive the drop).
+RECURSIVE Placed(_, _, _)
+Placed(cmds, i, set) ==
+  IF i > Len(cmds) THEN set
+  ELSE LET c == cmds[i] IN
+       Placed(cmds, i + 1, IF c[1] = 1 THEN set \cup {<<c[2], c[3]>>}
+                           ELSE IF c[3] = 0 THEN {p \in set : p[1] # c[2]} ELSE set \ {<<c[2], c[3]>>})
 Verdict(r) ==
   IF r.panic # "" THEN "panic"
   ELSE IF r.payload_seen # r.payload THEN "bytes written before the frames were lost or duplicated"
-  ELSE Run(r.markers, 1, FALSE)
+  ELSE IF Run(r.markers, 1, FALSE) # "ok" THEN Run(r.markers, 1, FALSE)
+  ELSE IF r.image /\ Placed(r.kitty, 1, {}) # {} THEN "image: a placement survives on the terminal although the frames after the drop no longer show the image"
+  ELSE "ok"
 Bad == SelectSeq([i \in 1..Len(Rec) |-> [id |-> Rec[i].id, why |-> Verdict(Rec[i])]], LAMBDA v : v.why # "ok")
 ASSUME ndJsonSerialize(IOEnv.OUT, Bad)
 ASSUME PrintT(<<"JUDGED", Len(Rec), Len(Bad)>>)
